@@ -108,7 +108,8 @@ func NewSolarFromJulianDay(julianDay float64) *Solar {
 	}
 	if hour > 23 {
 		hour -= 24
-		day += 1
+		// carry into the next civil day (may be the next month/year, or 1582-10-15)
+		return NewSolar(year, month, day, hour, minute, second).NextDay(1)
 	}
 
 	return NewSolar(year, month, day, hour, minute, second)
